@@ -1,6 +1,6 @@
 # Edited by hand as coverage grows; consumed by mkmanifest.py.
 NOTYET = "not claimed in this revision: the functions this property depends on are not yet under contract (work in progress, see DESIGN.md section 9)"
-for _p in ["C02","C03","C04","C06","C08","C09","C10","C11","C13","C14","C15","C16","C18","C19","C20"]:
+for _p in ["C02","C03","C04","C06","C08","C11","C13","C14","C15","C16","C18","C19","C20"]:
     na(_p, NOTYET)
 na("C12", "tree equality across archive/tar, compress/gzip and the OS has no contract-level statement within reach of a function-modular verifier; the oras-go code in between is almost entirely calls into those libraries (DESIGN.md section 9, C12)")
 
@@ -22,3 +22,12 @@ claim("C01",
   "Unbounded proof of the successor filter used by Copy: removeForeignLayers returns exactly the non-foreign elements of its input in order (ghost source-index witness), IsForeignLayer/IsManifest/FromOCI are exact. (Partial: the traversal closure obligations are added as they come under contract.)",
   "Assumed: Go slice semantics as modelled (append, in-place writes). The concurrent traversal (copyGraph closure), root tagging and the DAG-closure lemma are NOT yet discharged in this revision; the claim is limited to the obligations listed in the evidence.",
   "DESIGN.md section 9 C01")
+
+claim("C09",
+  "Unbounded proof on the real delete/GC path of the OCI store: the tag resolver keeps its invariant (a reference is in a digest's tag set iff it resolves to that digest), isTagged is exact, delete untags only references whose descriptor equals the target and keeps every other tag, Delete queues a referrer or dangling successor only when it is untagged and makes progress on every iteration (variant: stored blobs), gcIndex's subject-chain walk terminates (variant: Merkle height) and preserves both invariants, GC removes a file only when its digest is not in the rebuilt graph's digest set and only under a known algorithm directory, graph.Remove/DigestSet are exact.",
+  "Assumed (trusted contracts, listed in the evidence): Storage.Delete removes exactly one blob on success, saveIndex, registry.Referrers, graph.IndexAll, manifestutil.Subject together with Merkle acyclicity (height decreases along subject links), os.ReadDir/Remove, content addressing. Not decided: that the set removed equals exactly the unreachable set on disk (file-system state is not modelled), and the conflicting corner where an untagged referrer is also listed by a surviving index.",
+  "DESIGN.md section 9 C09")
+claim("C10",
+  "Publication-discipline obligations only (the crash-point quantifier has no contract-level counterpart): in oci.Store.delete the blob is removed only after the graph entry was removed and, when a tag was dropped and AutoSaveIndex is on, only after the index without it was saved. (Further discipline obligations on Storage.Push/ingest and writeIndexFile are added as they come under contract.)",
+  "Crash points are NOT enumerated; POSIX rename atomicity and durability of completed calls are assumed; saveIndex and Storage.Delete are trusted contracts in this revision.",
+  "DESIGN.md section 9 C10")
